@@ -7,6 +7,7 @@ package directive
 import (
 	"fmt"
 	"regexp"
+	"slices"
 	"strings"
 
 	"github.com/roddhjav/apparmor.d/pkg/paths"
@@ -128,6 +129,18 @@ func RegisterDirective(d Directive) {
 	Directives[d.Name()] = d
 }
 
+// isFilter tells the directives that only remove text (only, exclude)
+func isFilter(match []string) bool {
+	return match[1] == "only" || match[1] == "exclude"
+}
+
+func boolToInt(b bool) int {
+	if b {
+		return 1
+	}
+	return 0
+}
+
 func Run(file *paths.Path, profile string) (string, error) {
 	var err error
 	// A directive (stack) can bring in text that itself contains directives:
@@ -137,6 +150,10 @@ func Run(file *paths.Path, profile string) (string, error) {
 		if len(matches) == 0 {
 			break
 		}
+		// The filters first: what they remove must not be expanded before
+		slices.SortStableFunc(matches, func(a, b []string) int {
+			return boolToInt(!isFilter(a)) - boolToInt(!isFilter(b))
+		})
 		for _, match := range matches {
 			opt := NewOption(file, match)
 			if !strings.Contains(profile, opt.Raw) {
